@@ -23,6 +23,7 @@ def PrimitivesSane (T : Tables) (rq : Req) : Prop :=
   (∀ e, rq.shmOpen = .raises e → isA T e .OSError = true ∨ isA T e .ValueError = true) ∧
   (∀ e, rq.allocInit = .raises e → isA T e .ValueError = true ∨ isA T e .StructError = true) ∧
   (∀ e, rq.resolve = .raises e → isA T e .ValueError = true) ∧ rq.resolve ≠ .blocks ∧
+  (∀ e, rq.deser = .raises e → isA T e .StopIteration = true ∨ isA T e .OSError = true ∨ isA T e .ValueError = true) ∧
   (∀ e, rq.release = .raises e → isA T e .ValueError = true) ∧
   (∀ e, rq.asPy = .raises e → isA T e .Exception_ = true) ∧
   (∀ e, rq.versionCheck = .raises e → isA T e .ProtocolVersionError = true) ∧
